@@ -503,6 +503,21 @@ class CoreMixin:
                 if assume_after:
                     self.assume(goal)
                 return
+        if getattr(self, 'cli_first', False) and (self.pc_has_quant or has_quantifier(goal)):
+            # contract flag solver_route='cli': obligations of this function are known to be decided by the
+            # command-line solvers on the SMT-LIB text (set / lambda reasoning) and to stall in process
+            from . import backend
+            t0 = time.time()
+            text = backend.smt2_of(self.solver.assertions(), [z3.Not(goal)])
+            v, who = backend.run_cli(text, min(self.check_timeout_ms, 8000), which=('z3-4.8', 'z3'))
+            dcl = time.time() - t0
+            self.solver_s += dcl
+            self.queries += 1
+            if v == 'unsat':
+                rec.results.append(('unsat', dcl, None, self.path_no, who + '-cli'))
+                if assume_after:
+                    self.assume(goal)
+                return
         if self.pc_has_quant or has_quantifier(goal):
             r, dt = z3.unknown, 0.0
         else:
@@ -546,8 +561,26 @@ class CoreMixin:
                 with open(fn, 'w') as f:
                     f.write(s2.to_smt2())
             r2 = self.second_opinion(goal)
+            r3 = 'unknown'
+            if r2 != 'unsat':
+                try:
+                    from . import backend
+                    t0 = time.time()
+                    r3 = backend.old_z3_check(self.solver, goal, self.check_timeout_ms)
+                    if r3 != 'unsat':
+                        # ... and the current z3 on the SMT-LIB text (term order differs from the in-process run)
+                        r3, _w = backend.run_cli(backend.smt2_of(self.solver.assertions(), [z3.Not(goal)]),
+                                                 self.check_timeout_ms, which=('z3',))
+                        if r3 != 'unsat':
+                            r3 = 'unknown'
+                    self.solver_s += time.time() - t0
+                    self.queries += 1
+                except Exception as err:  # noqa
+                    self.notes.append('z3 4.8 command line unavailable: %r' % (err,))
             if r2 == 'unsat':
                 rec.results.append(('unsat', dt, None, self.path_no, 'cvc5'))
+            elif r3 == 'unsat':
+                rec.results.append(('unsat', dt, None, self.path_no, 'z3-4.8-cli'))
             else:
                 # Satisfiability under universally quantified hypotheses is out of the solver's
                 # reach.  Look for a *candidate* counterexample: a model of the quantifier-free
